@@ -35,12 +35,14 @@ claim("C03", "MIR must-pass-through on CFG + def-use + only-allowed-bypass",
       "size announced by the header at the cursor, and the branches that may bypass the widening are enumerated (C03.3); the planner arithmetic over runtime sizes is not decided.", design="4/C03, 10.1")
 claim("C14", "abstract interpretation over char partition + who-may-push",
       "Decides the property for all key strings at the level of path components: exact image of the sanitizer closure over a finite partition of char, fallback-discipline obligations, "
-      "and a who-may-push rule over every PathBuf::push/Path::join in the crate with operand-origin slices.", design="4/C14")
+      "and a who-may-push rule over every PathBuf::push/Path::join in the crate: pushes live in the path manager only and the operand is the sanitizer's result through views and "
+      "copies only (any transformation applied after the sanitizer is reported), a timestamp or a literal.", design="4/C14, 10.1")
 
 claim("C01", "MIR must-pass-through + sibling agreement of header tables + dominance + only-allowed-bypass",
-      "Decides four structural clauses for every input: (1) every entry a consuming read counts as consumed (cursor advance, count decrement) is handed to the caller - must-pass-through "
+      "Decides five structural clauses for every input: (1) every entry a consuming read counts as consumed (cursor advance, count decrement) is handed to the caller - must-pass-through "
       "between the per-entry counter and the push, with offset-addressed-only edges derived from the code; read_next's cursor commits are followed by the return of the entry just read; "
-      "(2) the two encoders and seven decoders agree on the header tables (symbolic expressions reconstructed from MIR); (3) every Entry construction is dominated by the checksum-equal edge; (4) the first planned range of a batch read is widened to the entry at the cursor (shared with C03.3). "
+      "(2) the two encoders and seven decoders agree on the header tables (symbolic expressions reconstructed from MIR); (3) every Entry construction is dominated by the checksum-equal edge; (4) the first planned range of a batch read is widened to the entry at the cursor (shared with C03.3); (5) both paths of Reader::append_block_to_chain carry a tail position "
+      "over to the sealed chain identically and only under tail_block_id == block.id. "
       "Ordering, once-only delivery across blocks and the planner/budget interaction are not decided.", design="4/C01")
 claim("C04", "MIR path rules over Ok/Err edges (NOEXIT, must-not-reach), error discipline",
       "Decides for all inputs and failure points the shape conditions of 'failed appends leave no trace': no exit between sealing a block and installing its successor, rejections precede "
@@ -55,9 +57,10 @@ claim("C15", "MIR who-may-write + edge dominance + dataflow roles",
       "Decides the in-process clause for all inputs: writers of the count map, increments only after a successful append by exactly the appended number, decrements only under "
       "checkpoint (and stateful) by exactly the number of parsed entries, deliveries and decrements paired by must-pass-through. Of the recount after restart only a must-depend clause is decided (every table index and the partial-block count depend "
       "on the persisted (block, offset) pair, by data or unshared control dependence); its arithmetic is not.", design="4/C15, 10.1")
-claim("C16", "MIR sibling agreement via symbolic expression reconstruction",
+claim("C16", "MIR sibling agreement via symbolic expression reconstruction + ring-lifetime dataflow",
       "Decides agreement of the sibling implementations: the two entry encoders (field sources, serializer, prefix encoding, ranges, guard), the three read-range builders and exhaustive "
-      "two-arm backend dispatch. Equality of results over operation sequences is not decided.", design="4/C16")
+      "two-arm backend dispatch, and that the io_uring path keeps no queue state across batches (the ring is created in the call and sized from the plan, or a missing completion is a failure). "
+      "Equality of results over operation sequences is not decided.", design="4/C16, 10.1")
 
 claim("C05", "MIR RMW rule on slices with lock-guard provenance + truth table of the hold flag",
       "Schedules are not enumerated. The check decides, for every path, the absence of the atomicity-violation shapes that make duplicate delivery possible: a cursor commit computed "
@@ -74,15 +77,17 @@ claim("C10", "MIR ordering / must-pass-through of sync calls on acknowledgement 
       "subsets of unsynced writes is not decided.", design="4/C10")
 claim("C17", "MIR call-graph must-reach with only-allowed-bypass + state-machine obligations",
       "Decides that a clean shutdown (Drop of Walrus) synchronously reaches the marker store's fsync+rename on all paths with a snapshot of all topic states, that appends mark dirty "
-      "before anything can fail, that the marker state machine stores/loads the same atomic, and the atomic-replace protocol of the marker file.", design="4/C17")
+      "before anything can fail, that the marker state machine stores/loads the same atomic, that every update handed to the store is merged into the map that is written (loop rule), "
+      "and the atomic-replace protocol of the marker file.", design="4/C17, 10.1")
 
 claim("C06", "MIR sibling agreement of layout tables + natural-loop exit and loop-bound rules",
       "Decides three structural clauses for every input: the allocator's block layout (limit, offset step) equals the recovery scan's (limit = stride = DEFAULT_BLOCK_SIZE), and the "
       "per-file unit loop of recovery has no exit other than its condition (an unreadable unit is skipped, never ends the scan), and the entry scan of one unit is bounded by the unit (it cannot iterate without comparing its read offset with the "
       "stride). Cursor translation across synthetic block ids, counts "
       "after restart and clock regression are not decided.", design="4/C06")
-claim("C07", "MIR dominance along the resolved call chain + plan completeness + error-source table",
+claim("C07", "MIR dominance along the resolved call chain + plan completeness + verified-reader dataflow + error-source table",
       "Ack-after-write decided on all paths from the public append APIs down to the positional write of each backend, plan completeness/element agreement in both batch paths, and that "
+      "the recovery scan advances only by sizes returned by checksum-verified readers (a torn, never-acknowledged entry is not counted into a block), and "
       "every error exit of the open path originates from a filesystem call or lock (never from decoding file contents). What recovery reconstructs is covered only by C06's clauses.",
       design="4/C07")
 claim("C11", "MIR panic-freedom enumeration with discharge rules/table + who-may-call + dominance of length bounds",
